@@ -60,6 +60,45 @@ func (p *Program) initAllowed(pkg *ssa.Package) bool {
 	return false
 }
 
+func (p *Program) eagerInit(pkg *ssa.Package) bool {
+	path := pkg.Pkg.Path()
+	for _, pre := range p.initPrefix {
+		if strings.HasPrefix(path, pre) {
+			return true
+		}
+	}
+	return false
+}
+
+// global returns the address of g, allocating it on first use and running
+// the (whitelisted) package initializer of its package if that has not run.
+func (i *interpreter) global(g *ssa.Global) *value {
+	if g.Pkg != nil && !i.inited[g.Pkg] {
+		switch {
+		case i.initAllowed(g.Pkg):
+			initFn := g.Pkg.Func("init")
+			if i.forcing == nil {
+				i.forcing = map[*ssa.Package]bool{}
+			}
+			i.forcing[g.Pkg] = true
+			savedSteps, savedBudget := i.run.steps, i.run.budget
+			i.run.budget = 1 << 40
+			call(i, nil, token.NoPos, initFn, nil)
+			i.run.steps, i.run.budget = savedSteps, savedBudget
+			i.inited[g.Pkg] = true
+		case i.allowUninit(g):
+		default:
+			panic(engineErrorf("access to global %s of package %s whose init is not executed (add the package to the init whitelist or the variable to the allow list)", g.Name(), g.Pkg.Pkg.Path()))
+		}
+	}
+	if r, ok := i.globals[g]; ok {
+		return r
+	}
+	cell := zero(mustDeref(g.Type()))
+	i.globals[g] = &cell
+	return &cell
+}
+
 func (p *Program) allowUninit(g *ssa.Global) bool {
 	return p.allowUninitVars[g.Pkg.Pkg.Path()+"."+g.Name()] || p.allowUninitVars[g.Pkg.Pkg.Path()+".*"]
 }
@@ -307,14 +346,6 @@ func (p *Program) Run(fn *ssa.Function, intArgs []int, cfg RunConfig) (res *RunR
 		}
 	}()
 
-	for _, pkg := range p.prog.AllPackages() {
-		for _, m := range pkg.Members {
-			if g, ok := m.(*ssa.Global); ok {
-				cell := zero(mustDeref(g.Type()))
-				i.globals[g] = &cell
-			}
-		}
-	}
 	// init of the harness package (pulls in whitelisted dependencies)
 	if fn.Pkg != nil {
 		if initFn := fn.Pkg.Func("init"); initFn != nil {
